@@ -32,6 +32,35 @@ theorem C23_aggregate (numNodes : Nat) (rs : List NR) :
   · intro k; have := h4 k; simpa [cnt] using this
   · intro k; have := h5 k; simpa [cnt] using this
 
+/-- **Messages.** For every sender, the `Messages` entry is what the LAST consumed reply of that sender that
+writes a message wrote (a rejection notice, the message of a failed reply — also an empty one —, the non-empty
+message of a successful reply), and there is no entry if none did. -/
+theorem C23_messages (numNodes : Nat) (rs : List NR) (s : String) :
+    alookup (streamKeyResp numNodes rs).messages s = lastMsg (used numNodes rs) s := by
+  rw [streamKeyResp_eq, fold_messages]
+  simp
+
+/-- … in particular every failed consumed reply leaves an entry for its sender. -/
+theorem C23_failed_has_message (numNodes : Nat) (rs : List NR) (r : NR)
+    (hr : r ∈ used numNodes rs) (hf : failed r = true) :
+    (alookup (streamKeyResp numNodes rs).messages r.sender).isSome = true := by
+  rw [C23_messages]
+  unfold lastMsg
+  have hm : (msgOf r).isSome = true := by
+    unfold failed at hf; unfold msgOf
+    cases hp : r.payload with
+    | badType => rfl
+    | undecodable => rfl
+    | decoded n => simp [hp] at hf; simp [hf]
+  obtain ⟨m, hm'⟩ := Option.isSome_iff_exists.mp hm
+  have hmem : m ∈ ((used numNodes rs).filter (·.sender == r.sender)).filterMap msgOf :=
+    List.mem_filterMap.mpr ⟨r, List.mem_filter.mpr ⟨hr, by simp⟩, hm'⟩
+  cases hl : (((used numNodes rs).filter (·.sender == r.sender)).filterMap msgOf).getLast? with
+  | some x => rfl
+  | none =>
+    rw [List.getLast?_eq_none_iff] at hl
+    rw [hl] at hmem; simp at hmem
+
 /-- With at least one member, the consumed replies are the first `numNodes`. -/
 theorem C23_used (numNodes : Nat) (rs : List NR) (h : 0 < numNodes) : used numNodes rs = rs.take numNodes := by
   have : numNodes ≠ 0 := by omega
@@ -274,6 +303,8 @@ private def r4 : KeyResponse :=
   streamKeyResp 3 [okR "a" ["k1", "k2"] "k1", ⟨"b", .decoded ⟨false, "boom", [], ""⟩⟩, ⟨"c", .undecodable⟩, okR "d" ["k1"] "k1"]
 example : r4.numResp = 3 ∧ r4.numErr = 2 ∧ cnt r4.keys "k1" = 1 ∧ cnt r4.keys "k2" = 1 ∧ cnt r4.primary "k1" = 1 ∧
     cnt r4.primary "" = 1 ∧ keyRequestError r4 = some (.failures 2 3) := by decide
+example : alookup r4.messages "b" = some (.text "boom") ∧ alookup r4.messages "c" = some .decodeFailed ∧
+    alookup r4.messages "a" = none ∧ alookup r4.messages "d" = none := by decide
 example : keyRequestError (streamKeyResp 2 [okR "a" ["k"] "k"]) = some (.missing 1 2) := by decide
 example : keyRequestError (streamKeyResp 2 [okR "a" ["k"] "k", okR "b" ["k"] "k"]) = none := by decide
 -- Truncation: 40 bytes per key + 30 of envelope (+20 for a notice), limit 200, 10 keys: 200/25 = 8 attempts after the full one.
